@@ -81,10 +81,16 @@ CHECK = {
       T('int-blob-two4-cross', 'base', 'keys=int', 'vals=blob', 'two=1', 'nkeys=4', 'nvals=1', 'cross=1'),
       T('int-int-two4-cross-asan', 'asan', 'keys=int', 'vals=int', 'two=1', 'nkeys=4', 'nvals=1', 'cross=1'),
       T('ladder-int', 'base', 'mode=ladder', 'keys=int', 'sizes=1,2,3,7,16,33,100,300,1000,4000,10000'),
+      # light oracle: white-box reading of the nodes per state, get/mem as operations, last query in the state key
+      T('int3x2-light', 'base', 'keys=int', 'nkeys=3', 'nvals=2', 'light=1'), T('int4-light', 'base', 'keys=int', 'nkeys=4', 'nvals=1', 'light=1'), T('int5x2-light-qwin1', 'base', 'keys=int', 'nkeys=5', 'nvals=2', 'light=1', 'qwin=1'), T('str3x2-light-asan', 'asan', 'keys=str', 'nkeys=3', 'nvals=2', 'light=1'),
+      # whole large trees given up in one call (resize 0 / assign from empty / del), 4 fill orders
+      T('bigclear', 'base', 'mode=bigclear', 'sizes=100,5000,400000'), T('bigclear-asan', 'asan', 'mode=bigclear', 'sizes=100,5000,50000'),
       T('ladder-str', 'base', 'mode=ladder', 'keys=str', 'sizes=100,1000,4000'),
       T('ladder-asan', 'asan', 'mode=ladder', 'keys=int', 'sizes=1,2,3,16,100,1000'),
     ],
     'thorough': [
+      T('int4x2-light', 'base', 'keys=int', 'nkeys=4', 'nvals=2', 'light=1'), T('int5-light', 'base', 'keys=int', 'nkeys=5', 'nvals=1', 'light=1'), T('int6x2-light-qwin1', 'base', 'keys=int', 'nkeys=6', 'nvals=2', 'light=1', 'qwin=1'), T('str4x2-light', 'base', 'keys=str', 'nkeys=4', 'nvals=2', 'light=1'), T('int4-light-qwin3', 'base', 'keys=int', 'nkeys=4', 'nvals=1', 'light=1', 'qwin=3'), T('int4x2-light-asan', 'asan', 'keys=int', 'nkeys=4', 'nvals=2', 'light=1', 'qwin=1'),
+      T('bigclear', 'base', 'mode=bigclear', 'sizes=100,5000,400000,1000000,3000000'), T('bigclear-asan', 'asan', 'mode=bigclear', 'sizes=100,5000,400000'),
       # history suffix in the state key (lib/vf_bfs.h suffix=K): the last K operations keep histories apart that end in one visible state
       T('int10-sfx1', 'base', 'keys=int', 'nkeys=10', 'nvals=1', 'suffix=1'), T('int9-sfx2', 'base', 'keys=int', 'nkeys=9', 'nvals=1', 'suffix=2'), T('int-blob6x2-cross-sfx1', 'base', 'keys=int', 'vals=blob', 'nkeys=6', 'nvals=2', 'alias=1', 'cross=1', 'table=1', 'suffix=1'), T('str6x2-sfx1', 'base', 'keys=str', 'nkeys=6', 'nvals=2', 'alias=1', 'suffix=1'),
       # 14 keys needs ~4.5-6.5 min of one core on a quiet machine; deadline=520 ends it cleanly (exhaustive:false, position noted) on an overloaded one,
